@@ -5,6 +5,7 @@
 //! into the emitted HLSL text.
 
 use crate::common::*;
+use crate::progen;
 use proptest::prelude::*;
 use rssl::preprocess::PreprocessError;
 use rssl::text::tokens::Token;
@@ -552,6 +553,11 @@ pub fn check_record(rec: &Value) -> Verdict {
     match rec["kind"].as_str() {
         Some("soup") => {
             let text = rec["text"].as_str().unwrap_or("");
+            // texts that were not built by this check's generator (the fuzzer's) may hold directives, whose lines the
+            // preprocessor consumes: outside of the tiling domain
+            if rec["foreign"].as_bool().unwrap_or(false) && (text.contains('#') || text.contains("__HLSL_VERSION")) {
+                return Verdict::Skip("directive or predefined macro in a text that this check did not build".into());
+            }
             let exp: Option<Vec<String>> = rec["expect"].as_array().map(|a| a.iter().filter_map(|s| s.as_str().map(String::from)).collect());
             check_tiling(text, exp.as_deref())
         }
@@ -612,5 +618,16 @@ pub fn run(ctx: &mut Ctx) {
     );
     for l in ["soup_separated", "soup_adjacent", "has_splice", "has_crlf", "int_too_large_rejected", "float_denormal", "survival_f", "survival_L", "survival_u"] {
         ctx.require_label(l, 5);
+    }
+    if ctx.tier == Tier::Thorough && ctx.failures.is_empty() {
+        // coverage-guided stage: the fuzzer mutates generated programs (and the repository's inputs); the oracle in the
+        // target is this check's check_record
+        let mut seeds: Vec<Vec<u8>> = sample_strategy(&progen::choices_strategy(400), ctx.seed ^ 0xf010, 300)
+            .iter()
+            .enumerate()
+            .map(|(i, ch)| progen::generate(ch, if i % 3 == 0 { progen::Profile { pipelines: false, ..progen::Profile::full() } } else { progen::Profile::exec_hlsl() }).1.into_bytes())
+            .collect();
+        seeds.extend(["/* a */ x // b\n", "1.5e-3f 0x1Fu 017 1.#INF \"s\\\"t\"\n", "#define A(x) x ## y \\\n  z\r\n"].iter().map(|t| t.as_bytes().to_vec()));
+        crate::fuzz::campaign(ctx, "text_property", Some("C10"), seeds, 300, &|bytes: &[u8]| json!({"kind": "soup", "foreign": true, "text": String::from_utf8_lossy(bytes).to_string()}), &check_record);
     }
 }
